@@ -1,16 +1,32 @@
+import vlib
+
+
+def _pre(ctx):
+    """The command line is one of the ways of fixing a text: build the real sqruff binary from the tree for the harness."""
+    cb = vlib.cli_build()
+    if not cb["ok"]:
+        vlib.log(cb["log"])
+        ctx["R"].violation("broken-correspondence", dict(what="the sqruff binary does not build from the tree", log=cb["log"][-3000:]), False)
+        return
+    ctx["harness_extra"] = ["--sqruff", cb["bin"]]
+
+
 CFG = dict(
-    prop="C16", level="proof", harness="c16",
+    prop="C16", level="proof", harness="c16", pre=_pre,
     props_files=["theories/Props/C16.v"], corr_file="theories/Corr/C16.v", corr_module="Corr.C16",
-    extra_targets=["theories/Caps/Proofs.vo"],
-    groups={"call": False},
-    show_fn={"call": "model"},
+    extra_targets=["theories/Caps/Proofs.vo", "theories/Caps/Reach.vo"],
+    groups={"call": False, "crawl": False},
+    show_fn={"call": "model", "crawl": "model_crawl"},
     shard=400,
     design_ref="DESIGN.md 6.16",
     technique="Coq proof (ASCII model of handle_segment: upper/lower/capitalise/pascal, refutation memory, consistent resolution, "
               "ignore_words guard, one crawl with threaded memory) + call-by-call correspondence through a cfg(sqruff_verif) "
               "recorder in cp01.rs + direct observation of fix_string / lint(fix) / fix(fix) / protected leaves through every public "
               "entry point of the Linter (lint_string, lint_paths on a file and on a directory, render_string+lint_rendered, "
-              "lint_string_wrapped)",
+              "lint_string_wrapped) and through the sqruff binary built from the tree (sqruff fix/lint over ten shapes of the path "
+              "argument list, stdin included) + an independent reading of which tokens each policy applies to (scope walk over the "
+              "parse tree): every such token is in the configured case after the fix, is handed to handle_segment during a lint "
+              "(recorder), and the calls of each rule's whole crawl agree with the Gallina trace over the scope tokens",
     level_text="C16_case_only, C16_concrete_idempotent, C16_pass_case_only and C16_concrete_pass_stable are closed Coq theorems for "
                "every ASCII token, token sequence, memory, ignore list and option list: a fix changes only letter case, and for "
                "upper/lower/capitalise/pascal a second crawl reports and changes nothing. For consistent the frozen-verdict "
@@ -22,20 +38,34 @@ CFG = dict(
                "extended option list (CP02/CP05) one crawl is not enough (C16_consistent_one_pass_refuted) but the result of the "
                "second crawl is always stable (C16_extended_consistent_two_pass, C16_consistent_two_pass_from), so the three crawls "
                "the fix loop runs for post-phase rules suffice on the model; that the loop runs them that way is observed "
-               "(fix(fix)=fix, lint(fix) clean). Every recorded call of handle_segment is replayed on the model on every run.",
+               "(fix(fix)=fix, lint(fix) clean). Every recorded call of handle_segment is replayed on the model on every run. "
+               "Reaching the policy: after a crawl under a concrete policy every token not on the ignore list (exact lower-cased word), "
+               "not empty and not templated is in the case of the policy (C16_concrete_pass_reaches); a token not on the list is always "
+               "handed to handle_segment (C16_not_ignored_is_called); a crawl is its call trace applied to the tokens (C16_pass_is_trace), "
+               "and that trace is compared with the recorder for every rule's crawl over the tokens an independent scope walk finds.",
     level_note="Trusted: Coq kernel; the recorder hook in cp01.rs; the hand-written model (tie = sampled call-by-call correspondence). "
                "Non-ASCII tokens are excluded from the model comparison (Rust Unicode case mapping not modelled) but kept in the "
                "direct checks. Which tokens the crawler visits (grammar dependent) and that quoted/comment leaves are never "
                "visited is observed, not modelled. The fix loop itself (three crawls of a post-phase rule, fixes applied in between) is "
-               "not modelled: the convergence theorems are about iterated crawls of the model.",
+               "not modelled: the convergence theorems are about iterated crawls of the model. The scope walk (which segment kinds each "
+               "rule covers and its exemptions) is a hand-written specification in harness/src/c16.rs, compared with the recorder on every "
+               "input; ignore_words_regex is evaluated only for the anchored patterns the generator writes.",
     rule="hand-written statements mixing the five element kinds x every uniform policy and random per-kind policies x dialects x "
          "ignore_words; corpus files and case scrambles of them (upper, lower, per-char, per-word) under random per-kind "
          "policies and ignore_words drawn from the file; each fixed with only CP01-CP05 selected, through lint_string and through "
          "each other public entry point (lint_paths(file), lint_paths(dir with a sibling file), render_string+lint_rendered, "
-         "lint_string_wrapped), fix / lint-of-fix / fix-of-fix going through the same entry point. Every handle_segment call "
+         "lint_string_wrapped), fix / lint-of-fix / fix-of-fix going through the same entry point; one input in three also through "
+         "two of ten command line shapes of the sqruff binary (file, directory, file + directory, a clean argument next to dirty "
+         "ones, a directory without SQL files, the working directory, --config, stdin). ignore_words hold whole words of the text "
+         "or parts of them (pieces between underscores, prefixes, suffixes), ignore_words_regex anchored patterns over them. "
+         "Per input and element kind: the scope tokens against the recorded calls of a lint (direct), the whole crawl against "
+         "the Gallina trace (group crawl), every scope token of the fixed text in the configured case (direct, per entry point). "
+         "Every handle_segment call "
          "(raw, policy, option list, memory before/after, result) is a correspondence case, deduplicated per file; "
          "non-trivial = the call reported a fix; distinct = distinct (args, expected) terms",
     assumptions=["tokens handed to handle_segment are ASCII (others are counted and excluded from the model comparison)",
-                 "H_memory_threads: the memory a call sees is the memory the previous call of the same crawl left, or empty at the start of a crawl (monitored)"],
-    trusted_extra=["#[cfg(sqruff_verif)] recorder in crates/lib/src/rules/capitalisation/cp01.rs (add-only wrapper around handle_segment)"],
+                 "H_memory_threads: the memory a call sees is the memory the previous call of the same crawl left, or empty at the start of a crawl (monitored)",
+                 "H_exempt_tokens_not_visited: a token the scope reading exempts (ignore_words, ignore_words_regex, outside the rule's segment kinds) is never handed to handle_segment (monitored)"],
+    trusted_extra=["#[cfg(sqruff_verif)] recorder in crates/lib/src/rules/capitalisation/cp01.rs (add-only wrapper around handle_segment)",
+                   "the scope reading in harness/src/c16.rs (segment kinds and exemptions per capitalisation rule), the parser of the human report format of sqruff lint"],
 )
